@@ -80,8 +80,13 @@ let hist fuel (kbx : Sexp.t) (ops : Sexp.t list) : string * Sexp.t * Sexp.t =
                    let lazy_part =
                      (* the continuation-style reference search of Spec/SpecLazy.v (cut-free programs): the
                         substitution sets themselves, with the engine's own variable ids *)
-                     match answers kb fuel fuel t w1 with
-                     | Ok (l, wl) -> L (A "lazy" :: (List.map sexp_of_ss l @ [A (atom_of_str (wl.out))]))
+                     (* Spec/SpecCut.v covers cut, not and time as well; on cut-free programs it must agree
+                        with Spec/SpecLazy.v *)
+                     let show (l, wl) = L (A "lazy" :: (List.map sexp_of_ss l @ [A (atom_of_str (wl.out))])) in
+                     match canswers kb fuel fuel t w1, answers kb fuel fuel t w1 with
+                     | Ok c, Ok p -> if show c <> show p then bad "SpecLazy and SpecCut differ" else show c
+                     | Ok c, _ -> show c
+                     | _, Ok p -> bad "SpecLazy finishes, SpecCut does not"
                      | _ -> A "lazy-outside" in
                    specs := L [A "slot"; A q; spec_of_query fuel kb t w1.next_id; lazy_part] :: !specs
                  | _ -> bad "build: not a call");
